@@ -3261,6 +3261,24 @@ class Enumerator:
 
     def _for(self, node, st, handlers):
         line = node.lineno
+        if isinstance(node.iter, ast.Call) and isinstance(
+                node.iter.func, ast.Name) and node.iter.func.id in (
+                    'tuple', 'list') and len(node.iter.args) == 1 and \
+                not node.iter.keywords and isinstance(
+                    node.iter.args[0], (ast.Call, ast.Attribute, ast.Name)) \
+                and not isinstance(node.iter.args[0], (
+                    ast.GeneratorExp, ast.ListComp)) and self.prog.resolve(
+                        self._stack[-1].module, node.iter.func) == \
+                'builtin:' + node.iter.func.id:
+            # a snapshot is walked: the same elements in the same order
+            loop = ast.For(target=node.target, iter=node.iter.args[0],
+                           body=node.body, orelse=node.orelse)
+            ast.copy_location(loop, node)
+            for k in ('_pv_evaluated',):
+                if hasattr(node, k):
+                    setattr(loop, k, getattr(node, k))
+            yield from self._for(loop, st, handlers)
+            return
         ch = self._desugar_chain(node, st)
         if ch is not None:
             yield from self.block(ch, st, handlers)
